@@ -168,4 +168,76 @@ pub fn generate(seed: u64, tier: &str, sink: &mut Sink) {
             }
         }
     }
+    // the connection attempt to the selected proxy fails (refused / timed out / reset / no route): the request fails;
+    // it is never sent somewhere else instead (no direct fallback, no second attempt)
+    for sc in schemes {
+        for px in proxies.iter().flatten() {
+            for kind in [6u8, 2, 3, 7] {
+                let case = SendCase {
+                    method: "POST".into(),
+                    url: format!("{}://example.com/private?token=1", sc),
+                    follow: true,
+                    max_redirections: 5,
+                    max_headers: 100,
+                    compress: false,
+                    proxy: ProxyCfg { http: Some(px.to_string()), https: Some(px.to_string()), no_proxy: vec![] },
+                    params: vec![],
+                    pre: vec![Step::Header("Authorization".into(), b"Bearer s3cret-token".to_vec())],
+                    body: BodyR::Text("secret body".into()),
+                    post: vec![],
+                    hops: vec![(vec![Seg::Data(OK_RESPONSE.to_vec())], None), (vec![Seg::Data(OK_RESPONSE.to_vec())], None)],
+                    plain_tunnel: false,
+                };
+                set_dial_failure(Some((0, kind)));
+                let obs = run_send(&case);
+                set_dial_failure(None);
+                let pu = url::Url::parse(px).unwrap();
+                let o: Result<(), (String, String)> = (|| {
+                    let h = obs.hops.first().ok_or(("no-dial".to_string(), "no connection attempt".to_string()))?;
+                    if h.dial.host.trim_matches(|c| c == '[' || c == ']') != pu.host_str().unwrap() || h.dial.port != pu.port_or_known_default().unwrap() {
+                        return Err(("wrong-peer-proxy-down".into(), format!("first dial {}:{}", h.dial.host, h.dial.port)));
+                    }
+                    if obs.hops.len() != 1 {
+                        let d = &obs.hops[1];
+                        return Err(("fallback-after-proxy-dial-failure".into(), format!("the proxy {} could not be reached; the client then dialled {}://{}:{} and wrote {} bytes there", px, d.dial.scheme, d.dial.host, d.dial.port, d.written.len())));
+                    }
+                    match &obs.fin {
+                        FinalObs::Err(_) => Ok(()),
+                        f => Err(("proxy-dial-failure-not-reported".into(), format!("{:?}", f))),
+                    }
+                })();
+                sink.push(Case { tags: vec!["mode=proxy-unreachable".into(), format!("scheme={}", sc), format!("kind={}", kind)], op: "nop proxy-unreachable".into(), impl_line: "nop".into(), oracle: o });
+            }
+        }
+    }
+    // real sockets: one host name, two ports, requests one after the other on this thread — each goes to the port its
+    // URL names (nothing remembered about the name from the previous connection may redirect it)
+    {
+        use std::sync::{Arc, Mutex};
+        let hits = Arc::new(Mutex::new(vec![]));
+        let a = crate::p_c17::acceptor(false, 1, hits.clone());
+        let b = crate::p_c17::acceptor(false, 2, hits.clone());
+        for (name, by_override) in [("samehost.test", true), ("localhost", false)] {
+            let mut got: Vec<String> = vec![];
+            for (addr, want) in [(a, 1usize), (b, 2), (a, 1), (b, 2)] {
+                if by_override {
+                    attohttpc::verif_hooks::set_resolver_override(name, vec![addr]);
+                }
+                let r = attohttpc::get(format!("http://{}:{}/r{}", name, addr.port(), want)).connect_timeout(std::time::Duration::from_secs(3)).read_timeout(std::time::Duration::from_secs(3)).follow_redirects(false).send();
+                got.push(match r {
+                    Ok(resp) => resp.headers().get("x-listener").and_then(|v| v.to_str().ok()).unwrap_or("?").to_string(),
+                    Err(e) => format!("err:{:?}", e.kind()).chars().take(40).collect(),
+                });
+            }
+            attohttpc::verif_hooks::clear_resolver_overrides();
+            // `localhost` may not resolve in every sandbox: then nothing is asserted
+            let unresolved = !by_override && got.iter().all(|g| g.starts_with("err"));
+            let o = if unresolved || got == ["1", "2", "1", "2"] {
+                Ok(())
+            } else {
+                Err(("wrong-port-same-host".to_string(), format!("requests to ports A, B, A, B of {} were answered by listeners {:?}", name, got)))
+            };
+            sink.push(Case { tags: vec!["mode=same-host-other-port".into(), format!("resolved-by={}", if by_override { "override" } else { "system" }), if unresolved { "trivial".into() } else { "nontrivial".into() }], op: "nop same-host-other-port".into(), impl_line: "nop".into(), oracle: o });
+        }
+    }
 }
